@@ -388,6 +388,10 @@ def run(ctx, res):
     unattributed = []
     absorbed = {k: 0 for k in KNOWN}
     witness_seen = {}
+    # only mechanisms that known_findings.json still lists as `known` explain a disagreement; a repaired
+    # one (`fixed`) that shows up again is a violation
+    listed = {k['class'] for k in report.load_known() if k['property'] == 'C01' and k['status'] == 'known'}
+    active = {k for k in KNOWN if CLASS_OF[k] in listed}
     ties = []
     escapes = []
     first = True
@@ -443,7 +447,7 @@ def run(ctx, res):
                               reproduce='bin/check C01 --replay <this file>')
                 cls = None
                 for kf in KNOWN:
-                    if flags[kf]:
+                    if flags[kf] and kf in active:
                         cls = kf
                         break
                 if cls == 'last_word_escape':
@@ -470,7 +474,7 @@ def run(ctx, res):
     for n, (p, ws, pre, wb, why, replay) in enumerate(unattributed):
         if n < 2:
             try:
-                s2, w2, p2 = shrink(exe, p.stmts, p.probes, ws, pre, wb, KNOWN)
+                s2, w2, p2 = shrink(exe, p.stmts, p.probes, ws, pre, wb, tuple(active))
                 r = single(exe, s2, p.probes, w2, p2, wb)
                 if r is not None and r[0]:
                     replay['shrunk'] = dict(grammar=gen.show_grammar(s2), words=w2, prefix=p2, why=r[0],
@@ -481,7 +485,9 @@ def run(ctx, res):
         res.violations.append(report.Violation('C01: ' + why, replay))
     res.violations.extend(ties[:3])
     for cls, failed in witness_seen.items():
-        if not failed:
+        if failed and cls not in [CLASS_OF[k] for k in active]:
+            res.notes.append('witness of the repaired finding %s fails again' % cls)
+        if not failed and cls in [CLASS_OF[k] for k in active]:
             res.notes.append('witness of known finding %s conforms on this tree (the finding may be stale)' % cls)
     res.nontrivial = len(nontrivial)
     res.exhaustive = False
